@@ -1,12 +1,16 @@
 """C18 — topology diagnosis and root repair: sidecar contracts."""
 import z3
 
+from pyvc import ext_C18
+
 from pyvc.spec import Registry, SpecFn
-from pyvc.values import PList, SArr, Sym, fresh_name, to_z3, zint
+from pyvc.values import PDict, PList, SArr, Sym, fresh_name, to_z3, zint
 
 DSU = "swcgeom/utils/dsu.py"
 CHK = "swcgeom/core/swc_utils/checker.py"
 NORM = "swcgeom/core/swc_utils/normalizer.py"
+
+ext_C18.install()
 
 # ---------------------------------------------------------------------------
 # DisjointSetUnion against an abstract partition view.
@@ -171,6 +175,11 @@ def register(R: Registry):
 SWC_COLS = dict(id="int", type="int", x="real", y="real", z="real", r="real", pid="int")
 
 
+def _frame_uids(df):
+    """allocation identities of a frame and of its column arrays (the engine's entry set does not look inside frames)"""
+    return {df.uid} | {c.uid for c in df.cols.values()}
+
+
 def _first_root(E, df_old):
     """ghost: position of the first row whose pid is -1 (as a z3 term with axioms)."""
     pid = df_old.cols["pid"]
@@ -259,6 +268,93 @@ def register_normalizer(R):
                  ("other-roots-linked-to-first", marks_post("other-roots-linked")), ("every-original-edge-kept", marks_post("edges-kept")),
                  ("attributes-untouched", frame_other_cols({"pid"}))],
     )
+
+    # ------------------------------------------------------------------ the copying forms
+    # _copy_and_apply(fn, df, *args, **kwargs): fn is an UNKNOWN callable (it may rewrite the frame it is given in any way)
+    def caa_setup(S):
+        from pyvc.loops import havoc_value
+        from pyvc.values import snapshot
+
+        def fn_model(eng, args, kwargs):
+            eng.assumptions.add("callback-model(local to _copy_and_apply): fn may rewrite the contents of the frame it receives, nothing else")
+            eng.ghost.setdefault("fn-calls", []).append(dict(args=list(args), kwargs=dict(kwargs), at_call=snapshot(args[0]) if args else None))
+            if args:
+                havoc_value(eng, args[0])
+            return None
+
+        cols = dict(SWC_COLS)
+        cols["w"] = "real"  # an extra per-node column travels along
+        df = S.dframe(cols)
+        df.frozen = True
+        return dict(fn=S.callback("fn", fn_model), df=df, args=(S.int("a0"),), kwargs=PDict({"k": S.int("k0")}))
+
+    def caa_post(which):
+        def f(E, v, o):
+            calls = E.ghost.get("fn-calls", [])
+            if len(calls) != 1 or not calls[0]["args"]:
+                return False
+            c = calls[0]
+            got, d0 = c["args"][0], o["df"]
+            if which == "fn-applied-once-to-an-equal-copy-with-the-given-arguments":
+                if not hasattr(got, "cols") or got.uid in _frame_uids(d0) or list(c["at_call"].cols) != list(d0.cols):
+                    return False  # fn must get a COPY: an object allocated by this call
+                rest_ok = len(c["args"]) == 1 + len(o["args"]) and all(a is b for a, b in zip(c["args"][1:], v["args"])) and set(c["kwargs"]) == set(o["kwargs"].items) \
+                    and all(c["kwargs"][k_] is v["kwargs"].items[k_] for k_ in c["kwargs"])
+                same = [zint(c["at_call"].n) == zint(d0.n)] + [c["at_call"].cols[k_].arr == d0.cols[k_].arr for k_ in d0.cols]
+                return z3.And(z3.BoolVal(bool(rest_ok)), *same)
+            if which == "returns-the-frame-fn-worked-on":
+                return v["result"] is got
+            if which == "result-shares-no-storage-with-the-input":
+                return not (_frame_uids(got) & _frame_uids(d0))
+            raise KeyError(which)
+
+        return f
+
+    R.add(f"{NORM}:_copy_and_apply", prop="C18", setup=caa_setup,
+          ensures=[(nm, caa_post(nm)) for nm in ("fn-applied-once-to-an-equal-copy-with-the-given-arguments", "returns-the-frame-fn-worked-on",
+                                                 "result-shares-no-storage-with-the-input")],
+          notes="no `returns`: callers inline it, so the wrappers below see the in-place contract of the function they pass; the input frame is frozen")
+
+    def on_result(clause):
+        """a clause of the in-place form, read between the RESULT frame and the (untouched) input frame"""
+        def f(E, v, o):
+            r = v["result"]
+            if not hasattr(r, "cols"):
+                return False
+            return clause(E, {"df": r}, o)
+
+        return f
+
+    def fresh_result(E, v, o):
+        r = v["result"]
+        return hasattr(r, "cols") and r is not v["df"] and not (_frame_uids(r) & _frame_uids(o["df"]))
+
+    def frozen_frame(S, extra=True):
+        cols = dict(SWC_COLS)
+        if extra:
+            cols["w"] = "real"
+        df = S.dframe(cols)
+        df.frozen = True
+        return df
+
+    R.add(f"{NORM}:reset_index", prop="C18",
+          setup=lambda S: dict(df=frozen_frame(S), names=None),
+          requires=[has_root],
+          ensures=[("ids-rebased-on-first-root", on_result(reset_post("ids"))), ("edges-rebased", on_result(reset_post("edges"))),
+                   ("every-root-stays-root", on_result(reset_post("roots"))), ("attributes-untouched", on_result(frame_other_cols({"id", "pid"}))),
+                   ("result-is-a-fresh-frame", fresh_result)],
+          notes="input frame frozen: `input untouched` is the absence of a failed frame-write obligation")
+
+    R.add(f"{NORM}:mark_roots_as_somas", prop="C18",
+          variants={
+              "update_type=1": lambda S: dict(df=frozen_frame(S), update_type=1, names=None),
+              "update_type=False": lambda S: dict(df=frozen_frame(S), update_type=False, names=None),
+          },
+          requires=[has_root, "ids-are-not-the-marker :: forall(0, len_(df), lambda i: df['id'][i] != -1)"],
+          ensures=[("first-root-kept", on_result(marks_post("first-root-kept"))), ("single-root", on_result(marks_post("single-root"))),
+                   ("other-roots-linked-to-first", on_result(marks_post("other-roots-linked"))),
+                   ("every-original-edge-kept", on_result(marks_post("edges-kept"))),
+                   ("attributes-untouched", on_result(frame_other_cols({"pid"}))), ("result-is-a-fresh-frame", fresh_result)])
 
 
 _reg_dsu = register
@@ -536,3 +632,547 @@ _reg_4 = register
 def register(R):  # noqa: F811
     _reg_4(R)
     register_is_sorted(R)
+
+
+# ===========================================================================
+# base.py: get_dsu (pointer-jumping component labelling), checker.py: is_single_root
+#
+# The table is read as the FUNCTIONAL GRAPH e on its rows:  e(i) = the row the code's id lookup yields for the parent
+# id of row i (the last row carrying that id; row i's own id when pid[i] == -1, so a row without parent points to
+# itself when ids are distinct).  Nothing but "every parent id names a row" is required: forests, tables with
+# cycles, self loops and duplicate ids are all inside the domain.
+#
+# Ghost symbols (global, NEVER constrained globally: a clause that mentions them is proved for every interpretation):
+#   comp18   an arbitrary labelling of the rows;  "constant along edges" (comp18(e(i)) == comp18(i)) is always an explicit
+#            hypothesis of the clause.  Connectivity is the finest equivalence every such labelling respects.
+#   dp18     a depth witness; "the table is acyclic" is the explicit hypothesis FH (depth decreases strictly along e).
+BASE = "swcgeom/core/swc_utils/base.py"
+_I = z3.IntSort()
+comp18 = z3.Function("comp18", _I, _I)
+dp18 = z3.Function("dp18", _I, _I)
+
+
+def lastrow(E, ID, n):
+    """ghost f with f(k) = the last row whose id is k, for every id k that occurs (what dict(zip(ids, range(n))) maps k to)"""
+    key = ("lastrow18", ID.get_id(), n.get_id())
+    hit = E.ghost.get(key)
+    if hit is None:
+        f = z3.Function(fresh_name("lastrow"), _I, _I)
+        j = z3.Int(fresh_name("j"))
+        r = f(z3.Select(ID, j))
+        E.assume(z3.ForAll([j], z3.Implies(z3.And(j >= 0, j < n), z3.And(r >= j, r < n, z3.Select(ID, r) == z3.Select(ID, j)))))
+        E.assumptions.add("ghost definition: lastrow(k) = the last row whose id is k (exists for every id that occurs)")
+        hit = E.ghost[key] = (f, ID, n)  # the terms are kept alive: z3 reuses the ids of freed terms
+    return hit[0]
+
+
+class Table18:
+    """formulas over the (id, pid) columns of a frame"""
+
+    def __init__(self, E, df):
+        self.ID, self.PID, self.n = df.cols["id"].arr, df.cols["pid"].arr, zint(df.n)
+        self.E = E
+
+    def R(self, t):
+        return z3.And(t >= 0, t < self.n)
+
+    def key(self, i):
+        p = z3.Select(self.PID, i)
+        return z3.If(p == -1, z3.Select(self.ID, i), p)
+
+    def e(self, i):
+        return lastrow(self.E, self.ID, self.n)(self.key(i))
+
+    def parents_exist(self):
+        i, j = z3.Int("i18"), z3.Int("j18")
+        p = z3.Select(self.PID, i)
+        return z3.ForAll([i], z3.Implies(z3.And(self.R(i), p != -1), z3.Exists([j], z3.And(self.R(j), z3.Select(self.ID, j) == p))))
+
+    def einv(self, c):
+        """the labelling c is constant along every edge"""
+        i = z3.Int("i18")
+        return z3.ForAll([i], z3.Implies(self.R(i), c(self.e(i)) == c(i)))
+
+    def forest(self):
+        """FH: dp18 is a depth witness (strictly smaller at the parent row), i.e. the table has no cycle but self loops"""
+        i = z3.Int("i18")
+        return z3.ForAll([i], z3.Implies(self.R(i), z3.And(dp18(i) >= 0, z3.Implies(self.e(i) != i, dp18(self.e(i)) < dp18(i)))))
+
+    def roots_label_themselves(self, c):
+        i = z3.Int("i18")
+        return z3.ForAll([i], z3.Implies(z3.And(self.R(i), self.e(i) == i), c(i) == i))
+
+
+def register_get_dsu(R):
+    def setup(S):
+        df = S.dframe(SWC_COLS)
+        df.frozen = True
+        return dict(df=df, names=None)
+
+    def pre_parents(E, v, o):
+        return Table18(E, v["df"]).parents_exist()
+
+    def edges_resolve(E, fr):
+        """proof step at entry: e(i) is a row and carries the looked-up id (from `parents-exist` and the definition of lastrow)"""
+        T = Table18(E, fr.vars["df"])
+        i = z3.Int("i18")
+        E.prove("get_dsu/step/every-row-has-a-parent-row", z3.ForAll([i], z3.Implies(T.R(i), z3.And(T.R(T.e(i)), z3.Select(T.ID, T.e(i)) == T.key(i)))), "annotation")
+
+    def labels_of(v):
+        """the label array: the one int array among the locals (looked up by type, not by name: renaming it is harmless)"""
+        c = [x for k_, x in v.items() if isinstance(x, SArr) and x.kind == "int" and k_ != "result"]
+        if len(c) != 1:
+            raise KeyError("get_dsu: expected exactly one int array among the locals")
+        return c[0]
+
+    def flag_of(v):
+        c = [x for k_, x in v.items() if isinstance(x, bool) or (isinstance(x, Sym) and x.kind == "bool")]
+        if len(c) != 1:
+            raise KeyError("get_dsu: expected exactly one boolean local")
+        return c[0]
+
+    def initial_labels(E, v, o):
+        """annotation after `dsu = np.array([id2idx[i] for i in dsu])`: the labels start as the parent rows e(i)"""
+        if not any(isinstance(x, PDict) for x in v.values()) or any(isinstance(x, (bool, Sym)) for x in v.values()):
+            return True  # the first assignment to `dsu` (the parent ids, not yet rows) / the stores inside the loop
+        T = Table18(E, o["df"])
+        d = labels_of(v)
+        i = z3.Int("i18")
+        return z3.And(d.nz() == T.n, z3.ForAll([i], z3.Implies(T.R(i), z3.Select(d.arr, i) == T.e(i))))
+
+    def inv(which):
+        def f(E, v, o):
+            T = Table18(E, o["df"])
+            d = labels_of(v)
+            L = d.arr
+            i, x = z3.Int("i18"), z3.Int("x18")
+            Li = z3.Select(L, i)
+            if which == "labels-are-rows":
+                return z3.And(d.nz() == T.n, z3.ForAll([i], z3.Implies(T.R(i), T.R(Li))))
+            if which == "label-in-own-component":
+                return z3.Implies(T.einv(comp18), z3.ForAll([i], z3.Implies(T.R(i), comp18(Li) == comp18(i))))
+            if which == "what-is-constant-along-labels-is-constant-along-edges":
+                c = z3.Const("c18", z3.ArraySort(_I, _I))
+                linv = z3.ForAll([x], z3.Implies(T.R(x), z3.Select(c, z3.Select(L, x)) == z3.Select(c, x)), patterns=[z3.Select(c, x)])
+                return z3.ForAll([c, i], z3.Implies(z3.And(T.R(i), linv), z3.Select(c, T.e(i)) == z3.Select(c, i)), patterns=[z3.Select(c, i)])
+            if which == "parentless-rows-label-themselves":
+                return z3.ForAll([i], z3.Implies(z3.And(T.R(i), T.e(i) == i), Li == i))
+            if which == "acyclic:label-is-a-proper-ancestor":
+                return z3.Implies(T.forest(), z3.ForAll([i], z3.Implies(z3.And(T.R(i), T.e(i) != i), dp18(Li) < dp18(i))))
+            if which == "no-change-so-far-in-this-pass":
+                k = to_z3(v["_k1"], "int")
+                return z3.Implies(to_z3(flag_of(v), "bool"), z3.ForAll([i], z3.Implies(z3.And(i >= 0, i < k), z3.Select(L, Li) == Li)))
+            raise KeyError(which)
+
+        return f
+
+    SHARED = ["labels-are-rows", "label-in-own-component", "what-is-constant-along-labels-is-constant-along-edges",
+              "parentless-rows-label-themselves", "acyclic:label-is-a-proper-ancestor"]
+
+    def post(which):
+        def f(E, v, o):
+            T = Table18(E, o["df"])
+            r = v["result"]
+            if not isinstance(r, SArr):
+                return False
+            L = r.arr
+            i = z3.Int("i18")
+            Li = z3.Select(L, i)
+            if which == "fresh-array-of-row-numbers":
+                return z3.And(r.uid not in E.entry_uids and r.uid not in _frame_uids(o["df"]), r.nz() == T.n, z3.ForAll([i], z3.Implies(T.R(i), T.R(Li))))
+            if which == "labels-label-themselves":
+                return z3.ForAll([i], z3.Implies(T.R(i), z3.Select(L, Li) == Li))
+            if which == "same-label-only-if-connected(label-lies-in-the-row's-component-for-every-labelling-constant-along-edges)":
+                return z3.Implies(T.einv(comp18), z3.ForAll([i], z3.Implies(T.R(i), comp18(Li) == comp18(i))))
+            if which == "connected-rows-get-the-same-label(a-row-and-its-parent-row-agree)":
+                return z3.ForAll([i], z3.Implies(T.R(i), z3.Select(L, T.e(i)) == Li))
+            if which == "parentless-rows-label-themselves":
+                return z3.ForAll([i], z3.Implies(z3.And(T.R(i), T.e(i) == i), Li == i))
+            if which == "acyclic-table:label-is-the-row-of-the-root":
+                return z3.Implies(z3.And(T.forest(), T.einv(comp18), T.roots_label_themselves(comp18)), z3.ForAll([i], z3.Implies(T.R(i), Li == comp18(i))))
+            raise KeyError(which)
+
+        return f
+
+    POSTS = ["fresh-array-of-row-numbers", "labels-label-themselves",
+             "same-label-only-if-connected(label-lies-in-the-row's-component-for-every-labelling-constant-along-edges)",
+             "connected-rows-get-the-same-label(a-row-and-its-parent-row-agree)", "parentless-rows-label-themselves",
+             "acyclic-table:label-is-the-row-of-the-root"]
+
+    R.add(f"{BASE}:get_dsu", prop="C18", setup=setup,
+          requires=[("every-parent-id-names-a-row", pre_parents)],
+          returns=lambda S, fr: SArr.fresh("int", zint(fr.vars["df"].n), name="dsu"),
+          lemmas=[edges_resolve],
+          options=dict(asserts_after={"dsu": [("labels-start-as-the-parent-rows", initial_labels)]}),
+          ensures=[(nm, post(nm)) for nm in POSTS],
+          loops={0: dict(invariant=[(nm, inv(nm)) for nm in SHARED]),
+                 1: dict(invariant=[(nm, inv(nm)) for nm in SHARED + ["no-change-so-far-in-this-pass"]])},
+          notes="holds for every table whose parent ids name rows, WITH OR WITHOUT cycles (partial correctness: termination of the fixpoint "
+                "iteration is not proved); the input frame is frozen (any store into it is a failed frame obligation)")
+
+
+# ---------------------------------------------------------------------------------------------------------------
+# is_single_root / check_single_root: "all rows are connected" (an empty table has no root: False)
+def register_single_root(R):
+    def setup(S):
+        df = S.dframe(SWC_COLS)
+        df.frozen = True
+        return dict(df=df, names=None)
+
+    def frame_of(v):
+        if "df" in v:
+            return v["df"]
+        return v["args"][0]  # check_single_root(*args, **kwargs)
+
+    def pre_parents(E, v, o):
+        return Table18(E, frame_of(v)).parents_exist()
+
+    def witness(E, T):
+        """the labelling that separates two rows when the answer is False: the label array get_dsu returned (in the proof of
+        is_single_root itself), the witness handed over by the callee's contract (check_single_root), a fresh one at other call sites"""
+        hits = [kw["__result__"] for nm, kw in E.call_log if nm == "get_dsu" and "__result__" in kw]
+        if len(hits) == 1 and (E.cur_key or "").endswith(":is_single_root"):
+            return hits[0].arr
+        if (E.cur_key or "").endswith(":check_single_root") and E.ghost.get("single-root-witness") is not None:
+            return E.ghost["single-root-witness"]
+        w = z3.Const(fresh_name("separating_labels"), z3.ArraySort(_I, _I))
+        E.ghost["single-root-witness"] = w
+        return w
+
+    def post(which):
+        def f(E, v, o):
+            T = Table18(E, frame_of(o))
+            res = to_z3(v["result"], "bool")
+            i, j = z3.Int("i18"), z3.Int("j18")
+            if which == "true-only-if-all-rows-are-connected(every-labelling-constant-along-edges-is-constant)":
+                return z3.Implies(res, z3.And(T.n >= 1, z3.Implies(T.einv(comp18), z3.ForAll([i, j], z3.Implies(z3.And(T.R(i), T.R(j)), comp18(i) == comp18(j))))))
+            if which == "false-only-if-some-rows-are-not-connected(a-labelling-constant-along-edges-separates-two-rows)":
+                W = witness(E, T)
+                const_along_edges = z3.ForAll([i], z3.Implies(T.R(i), z3.Select(W, T.e(i)) == z3.Select(W, i)))
+                separates = z3.Exists([i, j], z3.And(T.R(i), T.R(j), z3.Select(W, i) != z3.Select(W, j)))
+                return z3.Implies(z3.Not(res), z3.Or(T.n == 0, z3.And(const_along_edges, separates)))
+            raise KeyError(which)
+
+        return f
+
+    POSTS = ["true-only-if-all-rows-are-connected(every-labelling-constant-along-edges-is-constant)",
+             "false-only-if-some-rows-are-not-connected(a-labelling-constant-along-edges-separates-two-rows)"]
+    R.add(f"{CHK}:is_single_root", prop="C18", setup=setup,
+          requires=[("every-parent-id-names-a-row", pre_parents)], returns="bool",
+          ensures=[(nm, post(nm)) for nm in POSTS],
+          notes="connectivity of the undirected graph of the table, cycles allowed; rests on get_dsu's contract (partial correctness)")
+
+    def setup_legacy(S):
+        df = S.dframe(SWC_COLS)
+        df.frozen = True
+        return dict(args=(df,), kwargs=PDict({}))
+
+    R.add(f"{CHK}:check_single_root", prop="C18", setup=setup_legacy,
+          requires=[("every-parent-id-names-a-row", pre_parents)], returns="bool",
+          ensures=[(nm, post(nm)) for nm in POSTS],
+          notes="deprecated alias: same contract as is_single_root")
+
+
+# ---------------------------------------------------------------------------------------------------------------
+# is_binary_tree(df, exclude_root): deprecated frame form of is_bifurcate (client of its contract)
+def register_binary_tree(R):
+    def setup(exclude_root):
+        def f(S):
+            df = S.dframe(SWC_COLS)
+            df.frozen = True
+            pids = df.cols["pid"]
+            nch = z3.Function("nch", z3.IntSort(), z3.IntSort(), z3.IntSort())  # the SAME ghost counter as in is_bifurcate's contract
+            k, i = z3.Ints("k_nch i_nch")
+            S.assume(z3.ForAll([k], nch(k, 0) == 0))
+            S.assume(z3.ForAll([k, i], z3.Implies(i >= 0, nch(k, i + 1) == nch(k, i) + z3.If(z3.Select(pids.arr, i) == k, 1, 0)), patterns=[nch(k, i + 1)]))
+            S.assume(z3.ForAll([k, i], z3.Implies(i >= 0, nch(k, i) >= 0), patterns=[nch(k, i)]))
+            prow = z3.Function("prow", z3.IntSort(), z3.IntSort())
+            return dict(df=df, exclude_root=exclude_root, names=None, __ghost__={"nch": nch, "prow": prow})
+
+        return f
+
+    def T(v):
+        df = v["df"]
+        return df.cols["id"], df.cols["pid"], zint(df.n)
+
+    def pre(which):
+        def f(E, v, o):
+            ids, pids, n = T(v)
+            a, b = z3.Int("a18"), z3.Int("b18")
+            if which == "ids-distinct":
+                return z3.ForAll([a, b], z3.Implies(z3.And(0 <= a, a < b, b < n), ids.get(a).z != ids.get(b).z))
+            if which == "ids-are-not-the-marker":
+                return z3.ForAll([a], z3.Implies(z3.And(0 <= a, a < n), ids.get(a).z != -1))
+            pr = E.spec_extra["prow"](a)
+            return z3.ForAll([a], z3.Implies(z3.And(0 <= a, a < n, pids.get(a).z != -1), z3.And(0 <= pr, pr < n, ids.get(pr).z == pids.get(a).z)))
+
+        return f
+
+    def post(E, v, o):
+        ids, pids, n = T(o)
+        nch = E.spec_extra["nch"]
+        a = z3.Int("a18")
+        ex = o["exclude_root"]
+        ok = z3.ForAll([a], z3.Implies(z3.And(0 <= a, a < n), z3.Or(z3.And(z3.BoolVal(bool(ex)), pids.get(a).z == -1), nch(ids.get(a).z, n) <= 2)))
+        return to_z3(v["result"], "bool") == ok
+
+    R.add(f"{CHK}:is_binary_tree", prop="C18",
+          variants={"exclude_root=True": setup(True), "exclude_root=False": setup(False)},
+          requires=[(nm, pre(nm)) for nm in ("ids-distinct", "ids-are-not-the-marker", "parents-exist")],
+          returns="bool",
+          ensures=[("true-iff-no-node-has-more-than-two-children", post)],
+          notes="deprecated frame form; the id / pid columns are handed to is_bifurcate, whose contract is used modularly")
+
+
+# ---------------------------------------------------------------------------------------------------------------
+# normalizer.py: link_roots_to_nearest_ (and its copying form)
+#
+# Domain (the property's "multi-root forests with any id base"): ids pairwise distinct and never -1, every parent id names a
+# row, no cycle (depth witness dp18), comp18 = the row of a row's root.  Ghost state G (arrays over the rows): rt = root row
+# and dp = depth in the CURRENT (partly repaired) forest, par = the row a repaired root was hung under.
+class Ghost18:
+    pass
+
+
+FOREST_PRE = ["has-a-root", "ids-pairwise-distinct-and-never-the-marker", "every-parent-id-names-a-row", "no-cycle(dp18-is-the-depth)",
+              "comp18-is-the-row-of-the-root"]
+
+
+def forest_pre(E, df, which):
+    """the domain of the root repair `nearest` as formulas over a frame's (id, pid) columns"""
+    T = Table18(E, df)
+    sel = z3.Select
+    a, b = z3.Int("a18"), z3.Int("b18")
+    pa = sel(T.PID, a)
+    if which == "has-a-root":
+        return z3.Exists([a], z3.And(T.R(a), pa == -1))
+    if which == "ids-pairwise-distinct-and-never-the-marker":
+        return z3.And(z3.ForAll([a, b], z3.Implies(z3.And(0 <= a, a < b, b < T.n), sel(T.ID, a) != sel(T.ID, b))),
+                      z3.ForAll([a], z3.Implies(T.R(a), sel(T.ID, a) != -1)))
+    if which == "every-parent-id-names-a-row":
+        return T.parents_exist()
+    if which == "no-cycle(dp18-is-the-depth)":
+        return z3.ForAll([a], z3.Implies(T.R(a), z3.And(dp18(a) >= 0, z3.If(pa == -1, dp18(a) == 0, dp18(a) == dp18(T.e(a)) + 1))))
+    if which == "comp18-is-the-row-of-the-root":
+        return z3.ForAll([a], z3.Implies(T.R(a), z3.And(T.R(comp18(a)), sel(T.PID, comp18(a)) == -1, comp18(a) == z3.If(pa == -1, a, comp18(T.e(a))))))
+    raise KeyError(which)
+
+
+def register_link_roots(R):
+    from pyvc.ext_C18 import DFrame as XFrame, InfMasked18, RowIter18
+    from pyvc.values import Obj
+
+    sel = z3.Select
+
+    def frame(S, frozen=False):
+        cols = dict(SWC_COLS)
+        cols["w"] = "real"  # an extra per-node column
+        n = S.int("df_n")
+        S.assume(n.z >= 0)
+        df = XFrame({c: SArr.fresh(k, n.z, name=f"df_{c}") for c, k in cols.items()}, n.z)
+        df.frozen = frozen
+        return df
+
+    def ghost_state(n):
+        x = z3.Int("x18")
+        return Obj(Ghost18, dict(rt=SArr(z3.Lambda([x], comp18(x)), n, "int", name="rt"), dp=SArr(z3.Lambda([x], dp18(x)), n, "int", name="dp"),
+                                 par=SArr(z3.K(_I, z3.IntVal(0)), n, "int", name="par")))
+
+    def setup(S):
+        df = frame(S)
+        return dict(df=df, names=None, G=ghost_state(zint(df.n)))
+
+    # ------------------------------------------------------------ preconditions
+    PRE = [(nm, (lambda w: lambda E, v, o: forest_pre(E, v["df"], w))(nm)) for nm in FOREST_PRE]
+
+    # ------------------------------------------------------------ loop invariant
+    def by_type(v, cls, what):
+        c = [x for x in v.values() if isinstance(x, cls)]
+        if len(c) != 1:
+            raise KeyError(f"link_roots_to_nearest_: expected exactly one {what} among the locals")
+        return c[0]
+
+    def labels_of(v):
+        c = [x for k_, x in v.items() if isinstance(x, SArr) and x.kind == "int"]
+        if len(c) != 1:
+            raise KeyError("link_roots_to_nearest_: expected exactly one int array among the locals")
+        return c[0]
+
+    class Ctx:
+        def __init__(self, E, v, o):
+            d0, d1 = o["df"], v["df"]
+            self.T = Table18(E, d0)
+            self.n, self.ID, self.P0, self.P1 = self.T.n, self.T.ID, self.T.PID, d1.cols["pid"].arr
+            G = v["G"]
+            self.rt, self.dp, self.par = G.fields["rt"].arr, G.fields["dp"].arr, G.fields["par"].arr
+            it = by_type(v, RowIter18, "row iterator")
+            self.kappa, self.rho, self.m = it.sel.flt.kappa, it.sel.flt.rho, it.sel.flt.nz()
+            self.k = to_z3(v["_k0"], "int")
+            self.start = it.start  # how many selected rows next() took before the loop (the code skips exactly the first root)
+
+        def R(self, t):
+            return self.T.R(t)
+
+        def root0(self, x):
+            return sel(self.P0, x) == -1
+
+        def cur_root(self, x):
+            return z3.And(self.root0(x), z3.Not(self.taken(x)))
+
+        def taken(self, x):
+            """x is one of the roots the loop has linked so far"""
+            return z3.And(self.rho(x) >= self.start, self.rho(x) < self.start + self.k)
+
+        def P(self, x):
+            return z3.If(self.root0(x), sel(self.par, x), self.T.e(x))
+
+    def inv(which):
+        def f(E, v, o):
+            C = Ctx(E, v, o)
+            x, y = z3.Int("x18"), z3.Int("y18")
+            if which == "only-the-parent-column-is-written":
+                d0, d1 = o["df"], v["df"]
+                same = [z3.ForAll([x], z3.Implies(C.R(x), sel(d1.cols[c].arr, x) == sel(d0.cols[c].arr, x))) for c in d0.cols if c != "pid"]
+                return z3.And(z3.BoolVal(list(d1.cols) == list(d0.cols)), zint(d1.n) == C.n, C.m >= 1, *same)
+            if which == "original-edges-kept":
+                return z3.ForAll([x], z3.Implies(z3.And(C.R(x), z3.Not(C.root0(x))), sel(C.P1, x) == sel(C.P0, x)))
+            if which == "roots-taken-so-far-are-linked-the-others-untouched":
+                linked = C.taken(x)
+                return z3.ForAll([x], z3.Implies(z3.And(C.R(x), C.root0(x)),
+                                                 z3.If(linked, z3.And(C.R(sel(C.par, x)), sel(C.P1, x) == sel(C.ID, sel(C.par, x))), sel(C.P1, x) == -1)))
+            rx = sel(C.rt, x)
+            if which == "forest/every-row-has-a-root-row-that-is-still-a-root":
+                return z3.ForAll([x], z3.Implies(C.R(x), z3.And(C.R(rx), C.cur_root(rx), sel(C.dp, x) >= 0)))
+            if which == "forest/roots-are-their-own-root-at-depth-0":
+                return z3.ForAll([x], z3.Implies(z3.And(C.R(x), C.cur_root(x)), z3.And(rx == x, sel(C.dp, x) == 0)))
+            if which == "forest/other-rows-hang-one-level-below-their-parent-row-in-the-same-tree":
+                return z3.ForAll([x], z3.Implies(z3.And(C.R(x), z3.Not(C.cur_root(x))), z3.And(C.R(C.P(x)), sel(C.rt, C.P(x)) == rx, sel(C.dp, x) == sel(C.dp, C.P(x)) + 1)))
+            if which == "labels-are-equal-exactly-within-a-tree":
+                d = labels_of(v)
+                return z3.And(d.nz() == C.n, z3.ForAll([x, y], z3.Implies(z3.And(C.R(x), C.R(y)), (sel(d.arr, x) == sel(d.arr, y)) == (sel(C.rt, x) == sel(C.rt, y)))))
+            raise KeyError(which)
+
+        return f
+
+    INV = ["only-the-parent-column-is-written", "original-edges-kept", "roots-taken-so-far-are-linked-the-others-untouched",
+           "forest/every-row-has-a-root-row-that-is-still-a-root", "forest/roots-are-their-own-root-at-depth-0",
+           "forest/other-rows-hang-one-level-below-their-parent-row-in-the-same-tree", "labels-are-equal-exactly-within-a-tree"]
+
+    # ------------------------------------------------------------ ghost code: after the store of the new parent id
+    def g_link(E, v):
+        G = v["G"]
+        rt, dp, par = G.fields["rt"].arr, G.fields["dp"].arr, G.fields["par"].arr
+        import ast as _ast
+
+        # the row being linked is the first component of the loop target (looked up in the carrier's AST: renaming it is harmless)
+        fn_node = E.cur_frame.func.node if E.cur_frame is not None and E.cur_frame.func is not None else None
+        tgt = [n_.target.elts[0].id for n_ in _ast.walk(fn_node) if isinstance(n_, _ast.For) and isinstance(n_.target, _ast.Tuple) and n_.target.elts
+               and isinstance(n_.target.elts[0], _ast.Name)] if fn_node is not None else []
+        i = [v[t_] for t_ in tgt[:1] if isinstance(v.get(t_), Sym)]
+        dis = by_type(v, InfMasked18, "masked distance array")
+        if len(i) != 1 or dis.idx is None:
+            raise KeyError("link_roots_to_nearest_: cannot identify the root being linked / the chosen row")
+        i, j = i[0].z, dis.idx.z
+        E.ghost["link-step"] = dict(rt=rt, dp=dp, i=i, j=j, mask=dis.mask)  # the state before the update, for the proof steps below
+        x = z3.Int("x18")
+        moved = sel(rt, x) == i
+        G.fields["rt"].arr = z3.Lambda([x], z3.If(moved, sel(rt, j), sel(rt, x)))
+        G.fields["dp"].arr = z3.Lambda([x], z3.If(moved, sel(dp, x) + sel(dp, j) + 1, sel(dp, x)))
+        G.fields["par"].arr = z3.Store(par, i, j)
+
+    GHOST = [(lambda txt: ".loc[" in txt.split("=")[0] and ".iloc[" in txt, g_link)]
+
+    def step_hint(E, v):
+        """proof steps of one iteration (each its own obligation): the first root's tree is another tree, so argmin picks a row of another tree"""
+        st = E.ghost.get("link-step")
+        if st is None or "G" not in v:
+            return
+        it = by_type(v, RowIter18, "row iterator")
+        kappa, n = it.sel.flt.kappa, zint(v["df"].n)
+        rt, i, j, mask = st["rt"], st["i"], st["j"], st["mask"]
+        r0 = kappa(0)
+        E.prove("link_roots_to_nearest_/step/the-first-root-heads-another-tree", z3.And(r0 >= 0, r0 < n, sel(rt, r0) == r0, sel(rt, i) == i, r0 != i), "annotation")
+        E.prove("link_roots_to_nearest_/step/some-row-lies-in-another-tree", z3.Not(mask.get(r0).z), "annotation")
+        E.prove("link_roots_to_nearest_/step/the-chosen-row-lies-in-another-tree", z3.And(j >= 0, j < n, sel(rt, j) != i), "annotation")
+
+    class AnyName(dict):
+        """rebind rule for whatever name the label array has: a fresh int array of the same length"""
+
+        def get(self, key, default=None):
+            return lambda eng, cur: SArr.fresh(cur.kind, cur.n, name=cur.name)
+
+    # ------------------------------------------------------------ postconditions
+    def witnesses(E, v, n):
+        """(par, dp): the final ghost arrays in the carrier's own proof, fresh Skolem arrays at a call site"""
+        if "G" in v:
+            return v["G"].fields["par"].arr, v["G"].fields["dp"].arr
+        if (E.cur_key or "").endswith(":link_roots_to_nearest") and "link-witness" in E.ghost:
+            return E.ghost["link-witness"]  # the copying form: the witness its callee's contract handed over
+        A = z3.ArraySort(_I, _I)
+        E.ghost["link-witness"] = (z3.Const(fresh_name("link_par"), A), z3.Const(fresh_name("link_depth"), A))
+        return E.ghost["link-witness"]
+
+    def post(which):
+        def f(E, v, o):
+            d0, d1 = o["df"], v["df"]
+            T = Table18(E, d0)
+            P0, P1, ID = T.PID, d1.cols["pid"].arr, T.ID
+            r0 = _first_root(E, d0)
+            x = z3.Int("x18")
+            if which == "first-root-kept":
+                return sel(P1, r0) == -1
+            if which == "single-root":
+                return z3.ForAll([x], z3.Implies(z3.And(T.R(x), x != r0), sel(P1, x) != -1))
+            if which == "every-original-edge-kept":
+                return z3.ForAll([x], z3.Implies(z3.And(T.R(x), sel(P0, x) != -1), sel(P1, x) == sel(P0, x)))
+            if which == "no-cycle-introduced(every-row-hangs-one-level-below-its-parent-row,the-first-root-is-the-only-row-at-depth-0)":
+                par, dp = witnesses(E, v, T.n)
+                Px = z3.If(sel(P0, x) == -1, sel(par, x), T.e(x))
+                return z3.ForAll([x], z3.Implies(T.R(x), z3.And(sel(dp, x) >= 0, z3.If(x == r0, sel(dp, x) == 0, z3.And(T.R(Px), sel(ID, Px) == sel(P1, x), sel(dp, x) == sel(dp, Px) + 1)))))
+            raise KeyError(which)
+
+        return f
+
+    def other_cols(E, v, o):
+        d1, d0 = v["df"], o["df"]
+        x = z3.Int("x18")
+        out = [z3.ForAll([x], z3.Implies(z3.And(x >= 0, x < zint(d0.n)), sel(d1.cols[c].arr, x) == sel(d0.cols[c].arr, x))) for c in d0.cols if c != "pid"]
+        return z3.And(z3.BoolVal(set(d1.cols) == set(d0.cols)), zint(d1.n) == zint(d0.n), *out)
+
+    POSTS = ["first-root-kept", "single-root", "every-original-edge-kept",
+             "no-cycle-introduced(every-row-hangs-one-level-below-its-parent-row,the-first-root-is-the-only-row-at-depth-0)"]
+    R.add(f"{NORM}:link_roots_to_nearest_", prop="C18", setup=setup, requires=PRE, modifies=["df"],
+          ensures=[(nm, post(nm)) for nm in POSTS] + [("attributes-untouched", other_cols)],
+          loops={0: dict(invariant=[(nm, inv(nm)) for nm in INV], modifies=["G", "df"], rebind=AnyName())},
+          options=dict(ghost_after=GHOST, hints={"loop0/preserved/only-the-parent-column-is-written": step_hint}),
+          notes="which foreign row is chosen (the nearest) is not part of the property: the contract needs only that argmin over the rows of OTHER trees "
+                "returns a row of another tree; termination of get_dsu is not proved")
+
+    def on_result(clause):
+        def f(E, v, o):
+            r = v["result"]
+            if not hasattr(r, "cols"):
+                return False
+            return clause(E, {"df": r}, o)
+
+        return f
+
+    def fresh_result(E, v, o):
+        r = v["result"]
+        return hasattr(r, "cols") and r is not v["df"] and not (_frame_uids(r) & _frame_uids(o["df"]))
+
+    R.add(f"{NORM}:link_roots_to_nearest", prop="C18",
+          setup=lambda S: dict(df=frame(S, frozen=True), names=None), requires=PRE,
+          ensures=[(nm, on_result(post(nm))) for nm in POSTS] + [("attributes-untouched", on_result(other_cols)), ("result-is-a-fresh-frame", fresh_result)],
+          notes="input frame frozen; the in-place form is used through its contract")
+
+
+_reg_5 = register
+
+
+def register(R):  # noqa: F811
+    _reg_5(R)
+    register_link_roots(R)
+    register_get_dsu(R)
+    register_single_root(R)
+    register_binary_tree(R)
